@@ -7,6 +7,7 @@
    request) pair by the harness, and the four input classes on which the crate violates it are the
    known findings F2, F3, F4, F23 (props/C01.known.json). *)
 From Adb Require Import Base Generated Hashing Net_Model Net_Proofs.
+From Adb Require Struct_Tokenizer_Proofs.
 
 (* The index never loses or invents a rule, whatever the histogram / bucket-size heuristics pick. *)
 Theorem C01_new_well_indexed : forall h L, WellIndexed h (fl_new h L) L.
@@ -730,3 +731,28 @@ Theorem C01_src_lookup_structure_is_model : forall (matches : rule -> bool) (tag
   /\ ListGen.optimize_threshold = 1%N /\ ListGen.optimize_sorts_by = "id"%string.
 Proof. exact Struct_List_Proofs.lookup_structure_is_model. Qed.
 Print Assumptions C01_src_lookup_structure_is_model.
+
+(* ---- the tokenizer loop of src/utils.rs, its wrappers, and the request side of src/request.rs,
+   as the translator extracts them on every run (Generated.TokzGen) ---- *)
+Theorem C01_src_tokenizer_loop_is_model :
+  forall (sf sl : bool) (s : str) (i : nat) (cur : option (nat * str)) (prec : option N) (n : nat),
+  Struct_Tokenizer_Proofs.tk_gen sf sl s i cur prec n = tk sf sl s i cur prec n.
+Proof. exact Struct_Tokenizer_Proofs.tk_gen_is_tk. Qed.
+Print Assumptions C01_src_tokenizer_loop_is_model.
+
+Theorem C01_src_tokenizer_wrappers_are_model :
+  forall (s : str) (sf sl : bool),
+  Struct_Tokenizer_Proofs.interp_wrapper "tokenize_filter"%string s sf sl = Some (tokenize_filter s sf sl) /\
+  Struct_Tokenizer_Proofs.interp_wrapper "tokenize"%string s sf sl = Some (tokenize s) /\
+  Struct_Tokenizer_Proofs.interp_wrapper "tokenize_pooled"%string s sf sl = Some (tokenize s).
+Proof. exact Struct_Tokenizer_Proofs.wrappers_are_model. Qed.
+Print Assumptions C01_src_tokenizer_wrappers_are_model.
+
+Theorem C01_src_request_side_is_model :
+  forall (h : str -> N) (url_lower original : str) (source_hashes : option (list N)),
+  Struct_Tokenizer_Proofs.interp_request_tokens h url_lower original = Some (request_tokens h url_lower) /\
+  Struct_Tokenizer_Proofs.concat_parts TokzGen.probes_order source_hashes (request_tokens h url_lower) =
+  Some (probes h source_hashes url_lower).
+Proof. exact Struct_Tokenizer_Proofs.request_side_is_model. Qed.
+Print Assumptions C01_src_request_side_is_model.
+
